@@ -24,7 +24,7 @@ ASSUMPTIONS = [
 ]
 MUST = ["reconnect_after_failure", "reconnect_after_close", "reconnect_after_peerdrop", "reconnect_after_loop_change",
         "keepalive_reuse", "no_keepalive_closed_after_request", "final_close_zero", "max_one_checked",
-        "queued_caller_cancelled", "concurrent_close_and_requests", "setting_write_histories", "transparent_reconnect_checked"]
+        "queued_caller_cancelled", "concurrent_close_and_requests", "setting_write_histories", "transparent_reconnect_checked", "two_objects_one_endpoint"]
 EXHAUSTIVE = {"quick": True, "thorough": True}
 
 REQ_CLASSES = {
@@ -396,6 +396,60 @@ def setting_write_cases(part):
                 part.see(f"setting-write|{fam}|{port}|{ka}|{fault}")
 
 
+def same_endpoint_cases(part):
+    """two inverter OBJECTS configured for the same endpoint with identical parameters, A with keep-alive, B without: each object owns
+    its transport - A's consecutive requests reuse one socket, B leaves none open, B.close() does not close A's"""
+    import asyncio
+    from .. import env, models
+    g = env.goodwe()
+    for fam, port in (("ET", 8899), ("ET", 502), ("DT", 8899), ("ES", 8899)):
+        sim = models.family_sim(fam)
+        obs = {}
+
+        async def flow(loop):
+            A = models.family_cls(g, fam)("inv0", port, 0, 1, 1)
+            B = models.family_cls(g, fam)("inv0", port, 0, 1, 1)
+            A.set_keep_alive(True)
+            B.set_keep_alive(False)
+            await A.read_device_info()
+            await A.read_runtime_data()
+            n_open0 = len([e for e in loop.events if e[1] == "open"])
+            await asyncio.sleep(0)
+            obs["live_after_A"] = len(loop.live)
+            await B.read_device_info()
+            await asyncio.sleep(0)
+            await asyncio.sleep(0)
+            obs["live_after_B"] = len(loop.live)
+            await A.read_runtime_data()
+            await A.read_runtime_data()
+            obs["opens_by_A_later"] = len([e for e in loop.events if e[1] == "open"]) - n_open0 - obs.get("opens_B", 0)
+            obs["opens_total"] = len([e for e in loop.events if e[1] == "open"])
+            await B._protocol.close()
+            await asyncio.sleep(0)
+            obs["live_after_B_close"] = len(loop.live)
+            await A._protocol.close()
+            await asyncio.sleep(0)
+            obs["live_end"] = len(loop.live)
+
+        run = engine.run_custom({("inv0", port): sim}, flow, vtime_cap=600, tx_cap=600)
+        part.evaluations += 1
+        part.count("two_objects_one_endpoint")
+        tr = "udp" if port == 8899 else "tcp"
+        ctx = f"two {fam} objects for the same endpoint (port {port}), A keep-alive on, B off"
+        case = {"same_endpoint": True}
+        if run.stop or run.error is not None:
+            part.violate(f"C10/{tr}/hang" if run.stop else f"C10/{tr}/setup", f"{ctx}: {run.stop or repr(run.error)}", case)
+            continue
+        # A: one socket, kept; B: opened its own for each request and left none; afterwards A still has its one
+        if obs["live_after_A"] != 1 or obs["live_after_B"] != 1 or obs["live_after_B_close"] != 1 or obs["live_end"] != 0:
+            part.violate(f"C10/{tr}/transport-shared-between-objects",
+                         f"{ctx}: open sockets after A's requests {obs['live_after_A']} (1), after B's request {obs['live_after_B']} (1: A's), after "
+                         f"B.close() {obs['live_after_B_close']} (1: A's), after A.close() {obs['live_end']} (0)", case)
+        opensA = [e for e in run.events if e[1] == "open"]
+        # A's later requests must not have opened anything: every 'open' after A's first one belongs to B (one per request of B)
+        part.see(f"same-endpoint|{fam}|{port}")
+
+
 def plan(tier, seed):
     specs = [{"cancel": True}]
     depth = 3 if tier == "quick" else 4
@@ -422,6 +476,7 @@ def run_shard(spec):
         for sc in concurrent_scenarios():
             run_concurrent_case(sc, part)
         setting_write_cases(part)
+        same_endpoint_cases(part)
         return part
     for d in range(0, spec["depth"]):
         for rest in itertools.product(ACTIONS, repeat=d):
@@ -437,6 +492,9 @@ def run_shard(spec):
 
 def replay(case):
     part = Part()
+    if case.get("same_endpoint"):
+        same_endpoint_cases(part)
+        return [{"key": v["key"], "msg": v["msg"]} for v in part.violations]
     if case.get("setting_write"):
         setting_write_cases(part)
         return [{"key": v["key"], "msg": v["msg"]} for v in part.violations]
